@@ -80,3 +80,35 @@ Theorem C11_old_attribute_dict_refuted :
   flatten_attr_dict hash0 root rl false [s "m"] None a = Some (s "x: mean y:") /\
   flatten_attr hash0 root rl false [s "m"] None a = Some (s "x: y: maximum y: x: mean").
 Proof. eexists. split; [vm_compute; reflexivity|]. split; vm_compute; reflexivity. Qed.
+
+(* seeded change s5: lateral candidates ordered by the length of the path STRING instead of the
+   depth of the group.  /observations/x (depth 1) and /a/b/x (depth 2), data variable /m/ta: the
+   code finds /observations/x; with the string order the deeper /a/b/x comes first, the "unique
+   nearest" test compares depths 2 and 1 and fails *)
+Definition first_by (key : rvar -> nat) : option rvar -> list rvar -> option rvar :=
+  fix go (best : option rvar) (l : list rvar) : option rvar :=
+    match l with
+    | [] => best
+    | v :: r => match best with
+                | None => go (Some v) r
+                | Some b => if key v <? key b then go (Some v) r else go best r
+                end
+    end.
+Definition path_len (v : rvar) : nat := length (pathname (v_groups v) (v_name v)).
+
+Theorem C11_lateral_string_order_refuted :
+  let vars := [mkVar [s "observations"] (s "x") [([], s "x")]; mkVar [s "a"; s "b"] (s "x") [([], s "x")];
+               mkVar [s "m"] (s "ta") [([], s "x")]] in
+  let lateral := [mkVar [s "observations"] (s "x") [([], s "x")]; mkVar [s "a"; s "b"] (s "x") [([], s "x")]] in
+  find_coord hash0 true vars ([s "m"], s "ta") ([], s "x") = Some ([s "observations"], s "x") /\
+  first_by (fun v => length (v_groups v)) None lateral = first_shortest None lateral /\
+  option_map v_groups (first_by (fun v => length (v_groups v)) None lateral) = Some [s "observations"] /\
+  option_map v_groups (first_by path_len None lateral) = Some [s "a"; s "b"].
+Proof. repeat split; reflexivity. Qed.
+
+(* the flattener's get_dims for h5netcdf before C11-fix3-1: a dimension spanned twice *)
+Theorem C11_old_h5_repeated_dimension_refuted :
+  exists root,
+  h5_get_dims_old root [s "h"; s "g"] [s "x"; s "x"] = [Some []; Some []] /\
+  map (nc_lookup_dim root [s "h"; s "g"]) [s "x"; s "x"] = [Some [s "g"]; Some [s "g"]].
+Proof. exists (G [] [s "x"] [] [G (s "g") [s "x"] [] [G (s "h") [] [] []]]). split; reflexivity. Qed.
